@@ -237,11 +237,80 @@ def concurrent_flush(store, late):
     store.flush_blocks_to_disk()          # the second writer's own flush
 
 
+def node_histories(ctx, res):
+    """the store as the node itself drives it (not only through add / flush): blocks adopted unvalidated during a bulk
+    download sit in the write buffer; a rejected delivery rolls the node back and drops the buffer; the dropped blocks are
+    delivered again and accepted; more blocks follow. After that history and a restart the store must hold every block of
+    the chain state the node served (monitors only)."""
+    from . import node, ledger
+    rng = ctx.rng
+    for si in range(ctx.scale(3, 8)):
+        chain.patch(horizon=-1)
+        keys = chain.Keys(rng, 5)
+        tree = chain.Tree(rng, keys)
+        tree.grow(rng.randrange(4, 8), fork_prob=0.3)
+        rn = node.RealNode(tree.cs, tree.blocks)
+        rn.add_peer(active=True)
+        cr = ledger.Crafter(tree)
+        accepted = []
+        for rnd in range(rng.randrange(2, 4)):
+            head = rn.cm.coinstate.current_chain_hash
+            if head != tree.cs.current_chain_hash:
+                break
+            a = tree.extend(head)
+            a2 = tree.extend(a.hash()) if rnd % 2 == 1 else None
+            node.CLOCK[0] = (a2 or a).timestamp + 5
+            rn.deliver_block(0, a, 41)                      # the answer to the node's own request: adopted, buffered
+            if a2 is not None:
+                rn.deliver_block(0, a2, 41)
+            bad = ledger.make_candidate(cr, "reward_plus1", (a2 or a).hash(), [])
+            if bad is not None:
+                node.CLOCK[0] = bad[1]
+                rn.deliver_block(0, bad[0], 0)              # refused: back to the last validated state, buffer dropped
+            for x in (a, a2):
+                if x is not None:
+                    node.CLOCK[0] = x.timestamp + 5
+                    rn.deliver_block(0, x, 0)               # delivered again, outside bulk download: validated and stored
+            nxt = tree.extend((a2 or a).hash())
+            node.CLOCK[0] = nxt.timestamp + 5
+            rn.deliver_block(0, nxt, 0)
+            accepted += [x for x in (a, a2, nxt) if x is not None]
+        served = dict(rn.cm.coinstate.block_by_hash)
+        try:
+            rn.store.flush_blocks_to_disk()
+        except Exception as e:
+            res.violations.append({"kind": "flushing after a node history raised: %r" % e, "scenario": si})
+        reopened = blockstore.BlockStore(rn.store.path)
+        try:
+            got = {b.hash(): b for b in reopened.read_blocks_from_disk()}
+        except Exception as e:
+            got = {}
+            res.violations.append({"kind": "reading the store after a node history raised: %r" % e, "scenario": si})
+        reopened.close()
+        missing = [i for i in served if i not in got and served[i].height > 0]
+        res.case(("node-history", si, tuple(sorted(served))), nontrivial=True)
+        res.count("node_histories")
+        res.count("node_history_blocks_redelivered_after_a_rollback", len(accepted))
+        if missing:
+            res.violations.append({"kind": "after a history of bulk-download adoptions, a refused block (roll-back, buffer dropped), "
+                                           "re-deliveries and a restart, %d block(s) of the chain state the node served are not "
+                                           "read back from the store (heights %s)"
+                                           % (len(missing), sorted(served[i].height for i in missing)),
+                                   "scenario": si, "blocks": [served[i].serialize().hex() for i in missing][:5]})
+        for i, b in got.items():
+            if i in served and b.serialize() != served[i].serialize():
+                res.violations.append({"kind": "a block read back after a node history is not byte-identical", "scenario": si})
+                break
+        rn.close()
+    chain.unpatch()
+
+
 def run(ctx):
     res = kit.Result()
     rng = ctx.rng
     arbitrary_blocks(ctx, res)
     wide_store(ctx, res)
+    node_histories(ctx, res)
     n_scen = ctx.scale(8, 40)
     for si in range(n_scen):
         lines = chain.patch(horizon=-1)
